@@ -21,7 +21,7 @@ ID = "C11"
 MANIFEST = {
     "category": "exploration",
     "text": "Stateful generated-input search (Hypothesis RuleBasedStateMachine): histories of up to 30 (thorough 60) steps over a pool of condition and AHB expressions with known structure - parse (cache hit or miss), parse a fresh string, send a string through the resolver (which replaces time conditions), use a string as the body of a package and expand it, edit a previously returned tree (incl. the expanded one) in place (replace / delete / append / clear / reverse children, overwrite the rule name, at any depth; overwrite the .value or .type attribute of a token), flood both caches with 1100 distinct strings so that the 1024-entry LRU evicts, evaluate under an assignment. Invariant after every step: the tree returned for a string matches the AST it was rendered from and equals the pristine deep copy of the first parse in this history; evaluation equals the reference evaluator. Caches are cleared at the start of every history. A second stage (cold-start) executes parse / flood / re-parse traces in a freshly started interpreter, so that the first use of both parsers in a process is judged as well; a quarter of the AHB pool strings (half of them there) carry no-break or other Unicode spaces inside their condition parts, which the AHB parser on its own must hand back unchanged. The cold-start traces also contain expressions nested 245-340 levels deep and in-place edits of the returned trees (the child interpreter has the default recursion limit). A further rule parses malformed strings (fixed list, pool strings with one bracket removed), which must be rejected with SyntaxError and leave no trace. Rule twin adds an AHB expression that differs from a pool entry only by more trailing whitespace; condition tokens are compared with the exact written text.",
-    "note": "Trusted: ref.match / the AHB split oracle, the reference evaluator, copy.deepcopy of lark trees, Hypothesis' stateful engine. Histories are bounded in length; the flood rule runs at most once per history. Process configuration by shard (vlib/sut.py; recorded in replay files): plain / parse caches preheated beyond their size / warnings attributed to ahbicht raised as errors / logging fully enabled with every record rendered; one event loop per process or a new one per call; five process time zones; the hash seed is the shard number; namesakes of ahbicht's marshmallow schema classes are registered.",
+    "note": "Trusted: ref.match / the AHB split oracle, the reference evaluator, copy.deepcopy of lark trees, Hypothesis' stateful engine. Histories are bounded in length; the flood rule runs at most once per history. Process configuration by shard (vlib/sut.py; recorded in replay files): plain / parse caches preheated beyond their size / warnings attributed to ahbicht raised as errors / logging fully enabled with every record rendered; one event loop per process or a new one per call; five process time zones; the hash seed is the shard number; namesakes of ahbicht's marshmallow schema classes are registered. Every registry of evaluators / providers / resolvers that the harness builds (sut.configure) also holds one of each kind that names no EDIFACT format and no format version; these must never be asked.",
     "technique": "stateful / model-based property testing (rule-based state machine over parse-edit-evict histories with a cache-independent oracle)",
 }
 LEVEL = "exploration"
